@@ -345,6 +345,31 @@ fn c13_space<K: Kit>(spec: &Spec, lat: &[V], ts: &[f64], rep: &mut Report, label
     if (got - want).abs() > 1e-12 * want.abs() {
         viol(rep, "C13", kit, &format!("{label}resolution"), spec, format!("longest valid segment {got}, weighted combination of the components gives {want}"), json!({}));
     }
+    // bounds operations on the "wild" product lattice: out-of-bounds, boundary and non-canonical
+    // in-bounds component states (an early exit or a skipped component shows only there)
+    for wv_state in compound_wild_lattice(&parts) {
+        let s0 = K::from_v(&wv_state);
+        let ai = comp(&K::to_v(&s0));
+        let sat = sp.satisfies_bounds(&s0);
+        let want_sat = (0..parts.len()).all(|k| comp_satisfies(&parts[k], &ai[k]));
+        rep.count("evaluations", 2);
+        rep.count("wild_bounds_states", 1);
+        if sat != want_sat {
+            viol(rep, "C13", kit, &format!("{label}satisfies_bounds"), spec, format!("compound says {sat}, components say {want_sat}"), json!({"a": wv_state.json()}));
+        }
+        let mut e = s0.clone();
+        sp.enforce_bounds(&mut e);
+        let ev = comp(&K::to_v(&e));
+        for k in 0..parts.len() {
+            let wv = comp_enforce(&parts[k], &ai[k]);
+            if !bits_eq(&ev[k], &wv) {
+                viol(rep, "C13", kit, &format!("{label}enforce_bounds"), spec, format!("component {k} differs from the component space's own result"), json!({"a": wv_state.json(), "got": ev[k].json(), "want": wv.json()}));
+            }
+            if !bits_eq(&wv, &ai[k]) {
+                rep.count("wild_enforce_changed", 1);
+            }
+        }
+    }
     for i in 0..n {
         let ai = comp(&lat[i]);
         // bounds, component by component
@@ -547,7 +572,7 @@ pub fn run(prop: &'static str, tier: &'static str) -> i32 {
         must_be_positive: match prop {
             "C09" => vec!["pairs", "triples", "representation_pairs"],
             "C10" => vec!["antipodal_pairs"],
-            _ => vec!["sampling_comparisons"],
+            _ => vec!["sampling_comparisons", "wild_bounds_states", "wild_enforce_changed"],
         },
     };
     finish(&meta, rep, t0)
